@@ -112,6 +112,28 @@ def coordinate_tie(rng):
     return {"L": 30, "circ": circ, "protos": protos, "genes": genes}
 
 
+def neighbours_across_origin(rng):
+    """ four unrelated protoclusters on a ring of 30: one whose neighbourhood runs over the origin, one behind the origin that
+        it does not reach, and two in front of the origin that both overlap it but not each other """
+    length = 30
+    start = rng.randrange(18, 22)
+    over_end = rng.randrange(2, 5)
+    far = rng.randrange(over_end + 2, over_end + 5)
+    first = start - rng.randrange(1, 3)
+    second = rng.randrange(start + 5, 27)
+    shapes = [({"parts": [[start, length], [0, over_end]], "strand": 1}, _span(28, 29)),
+              (_span(far, far + rng.randrange(2, 4)), None),
+              (_span(first, start + 2), None),
+              (_span(second, second + 2), None)]
+    protos, genes = [], []
+    for idx, (extent, core) in enumerate(shapes):
+        if core is None:
+            core = _span(extent["parts"][0][0], extent["parts"][0][0] + 1)
+        protos.append({"core": core, "extent": extent, "product": f"p{idx + 1}"})
+        genes.append({"loc": dict(core), "core_for": [f"p{idx + 1}"]})
+    return {"L": length, "circ": True, "protos": protos, "genes": genes}
+
+
 def three_hybrids_and_a_single(rng):
     """ seven protoclusters on a line of 30: three pairs sharing a defining gene each (three candidates in location order),
         the middle or first of them with a long neighbourhood, and a protocluster that overlaps only that neighbourhood """
@@ -233,6 +255,8 @@ def run(ctx):
         cases.append({"arr": three_hybrids_and_a_single(rng), "sampled": True})
     for _ in range(200 if ctx.quick else 3000):
         cases.append({"arr": coordinate_tie(rng), "sampled": True})
+    for _ in range(150 if ctx.quick else 2500):
+        cases.append({"arr": neighbours_across_origin(rng), "sampled": True})
     for idx, case in enumerate(cases):
         case["id"] = idx
         count = len(case["arr"]["protos"])
